@@ -72,9 +72,9 @@ def pub_case(c):
     obs = L(['(PObs %s %s %s %s %s %s)' % (N(k['topic']), L([pmsg(m) for m in k['before']]), L([pevent(e) for e in k['ev']]),
                                            optN(k['answer']), optN(k['res']), L([pmsg(m) for m in k['after']])) for k in c['calls']])
     cl = c['close']
-    return '(PubCase %s %s %s %s %s %s %s (%d, %s, %s))' % (
+    return '(PubCase %s %s %s %s %s %s %s (%d, %s))' % (
         L([pdec(d) for d in c['stack']]), L([pmsg(m) for m in c['heap']]), L([optN(s) for s in c['script']]), calls, obs,
-        tab3(c['tab']), L([pmsg(m) for m in c['final']]), cl[0], optN(cl[1]), optN(cl[2]))
+        tab3(c['tab']), L([pmsg(m) for m in c['final']]), cl[0], L(['(%s, %s)' % (optN(r[0]), optN(r[1])) for r in cl[1]]))
 
 def sdec(d):
     return '(STransform %s)' % N(d[1]) if d[0] == 'T' else '(SMetrics %s)' % N(d[1])
@@ -290,6 +290,27 @@ def one_round(res, pid, seed, n, rnd, race=False):
             res.violations.append(dict(signature=sig, what=what, case=good[i]))
         for i in r['R_mis']:
             res.mismatches.append(dict(kind='Corr.C20.mwstack_mismatch (Decor/MwStack.v hrun vs the real middleware + Retry chain)', explained_by_violation=i in r['R_vio'], case=good[i]))
+    # ---- overlapping invocations of a chain (gates between the applications of the middleware)
+    mc = data.get('mwconc', [])
+    good = []
+    for c in mc:
+        res.evaluations += 1
+        res.count('mw overlapping chain=%s x%d' % ('>'.join(c['stack']), len(c['scripts'])))
+        if c.get('problem') or bad_rows(c['htab'] or []):
+            res.violations.append(dict(signature='C20/mwconc:' + str(c.get('problem') or 'bad label value'), what=str(c.get('problem')), case=c)); continue
+        good.append(c)
+        res.nontrivial.add(('mwconc', tuple(c['stack']), json.dumps(c['scripts']), tuple(c['order'])))
+    if good:
+        def cterm(c):
+            st = L(['LM' if x == 'M' else '(LR %s)' % x[1:] for x in c['stack'] if x != 'G'])
+            return '(MwConcCase %s %s %s)' % (st, L([L([HOUT[o] for o in sc]) for sc in c['scripts']]), tab2(c['htab']))
+        r = C.coq_eval(pid, 'cases_mwconc_%d' % rnd, HEADER + 'Definition cases : list mwconc_case := %s.\n' % L([cterm(c) for c in good]),
+                       [('R_mis', 'c20_mwconc_mismatches cases'), ('R_vio', 'c20_mwconc_violations cases')])
+        for i in r['R_vio']:
+            res.violations.append(dict(signature='C20/handler-overlapping-invocations-miscounted',
+                                       what='with overlapping invocations of a chain that applies the metrics middleware more than once, handler observations differ from one per invocation of the outermost application', case=good[i]))
+        for i in r['R_mis']:
+            res.mismatches.append(dict(kind='Corr.C20.mwconc_mismatch (per-invocation heval logs vs the real chain under a forced interleaving)', explained_by_violation=i in r['R_vio'], case=good[i]))
     # ---- delay constructors
     dc = data['delay']
     for c in dc:
